@@ -742,11 +742,19 @@ def _anon_rows(rows):
     return sorted(([("unknown-*" if _FAKE.match(r[0]) else r[0])] + list(r[1:]) for r in rows), key=repr)
 
 
-def gp_coq_case(c, fixed):
+def gp_coq_case(c, fixed, strict):
     inner = gb_coq_case(dict(text=c["text"], lpbs=[c["lpb"]]), fixed)
-    head = inner[:inner.rindex(", [")]
+    lines = inner[inner.index("["):inner.rindex(", [")]
     n = inner[inner.rindex(", [") + 3:-2]
-    return head + f", {n}, [" + ";".join(zstr(q) for q in c["names"]) + "])"
+    return f"({cbool(fixed)}, {cbool(strict)}, {lines}, {n}, [" + ";".join(zstr(q) for q in c["names"]) + "])"
+
+
+# does get_feature_children("g1") also return the children of g10 (LIKE '%g1%'), or only those naming g1?
+GP_PROBE = dict(kind="gfffamily", block="gfffamily-probe", lpb=None, names=["g1"], wide=False,
+                text=gb_text([dict(c="##gff-version 3"),
+                              dict(seqid="s1", biotype="gene", strand="+", id="g1", extra="", s=1, e=9),
+                              dict(seqid="s1", biotype="gene", strand="+", id="g10", extra="", s=11, e=19),
+                              dict(seqid="s1", biotype="mRNA", strand="+", id="m1", extra="Parent=g10", s=11, e=19)]))
 
 
 def gp_compare(rep, cases, impl, model):
@@ -1300,31 +1308,37 @@ def run(tier: str, seed: int) -> int:
     rng_l = random.Random(seed * 7919 + 20)
     glines = gl_exhaustive_lines() + [gl_random_line(rng_l) for _ in range((600 if tier == "quick" else 30000) * (4 if proof_broken else 1))]
     lcases = [dict(kind="gfflines", lines=glines[i:i + 500]) for i in range(0, len(glines), 500)]
-    limpl_raw = core.run_impl_sharded("c17_impl.py", lcases)
-    limpl = [x for part in limpl_raw for x in (part if isinstance(part, list) else [part] * 500)][:len(glines)]
     rng_p = random.Random(seed * 7919 + 21)
-    pcases = [gp_random_case(rng_p) for _ in range((60 if tier == "quick" else 3000) * (4 if proof_broken else 1))]
-    pimpl = core.run_impl_sharded("c17_impl.py", pcases)
-    impl_all = core.run_impl_sharded("c17_impl.py", cases + gcases + fcases)
-    impl, gimpl, fimpl = impl_all[:len(cases)], impl_all[len(cases):len(cases) + len(gcases)], impl_all[len(cases) + len(gcases):]
+    pcases = [GP_PROBE] + [gp_random_case(rng_p) for _ in range((60 if tier == "quick" else 3000) * (4 if proof_broken else 1))]
+    impl_all = core.run_impl_sharded("c17_impl.py", cases + gcases + fcases + pcases + lcases)
+    cuts = [0]
+    for part in (cases, gcases, fcases, pcases, lcases):
+        cuts.append(cuts[-1] + len(part))
+    impl, gimpl, fimpl, pimpl, limpl_raw = (impl_all[cuts[i]:cuts[i + 1]] for i in range(5))
+    limpl = [x for part in limpl_raw for x in (part if isinstance(part, list) else [part] * 500)][:len(glines)]
+    gp_strict = isinstance(pimpl[0], list) and len(pimpl[0][0][0]) == 0
     # does the fake-id counter run on across the files of one wildcard path?
     gf_carry = isinstance(fimpl[0], list) and len(fimpl[0][1][0][0]) == 2
     # which rule does the source follow for a name met again in a later block (see Model/AnnotDbGff.v)?
     gb_fixed = isinstance(gimpl[0], list) and len(gimpl[0][1][0]) == 1
     model = gmodel = cdmodel = fmodel = lmodel = pmodel = None
     try:
-        model = run_model(cases)
-        cdmodel = run_cd_model(cases)
-        gmodel = core.coq_eval(PROP, ["Model.AnnotDb", "Model.AnnotDbGff"], "run_blocks", [gb_coq_case(c, gb_fixed) for c in gcases],
-                               "bool * list (option gline) * list Z", shard=80, tag="gb")
-        lmodel = core.coq_eval(PROP, ["Model.AnnotDb", "Model.AnnotDbGff", "Model.AnnotDbGffText"], "run_parse_line",
-                               [zstr(x) for x in glines], "list Z", shard=400, tag="gl")
-        pmodel = core.coq_eval(PROP, ["Model.AnnotDb", "Model.AnnotDbGff", "Model.AnnotDbGffText"], "run_family",
-                               [gp_coq_case(c, gb_fixed) for c in pcases], "bool * list (option gline) * Z * list (list Z)", shard=80, tag="gp")
+        import concurrent.futures as _cf
+
         fidx = [i for i, r in enumerate(fimpl) if isinstance(r, list)]
-        fout = core.coq_eval(PROP, ["Model.AnnotDb", "Model.AnnotDbGff"], "run_files",
-                             [gf_coq_case(fcases[i], fimpl[i][0], gb_fixed, gf_carry) for i in fidx],
-                             "bool * bool * list (list (option gline)) * list Z", shard=80, tag="gf")
+        with _cf.ThreadPoolExecutor(max_workers=6) as ex:   # the six model evaluations are independent coqc runs
+            f_model = ex.submit(run_model, cases)
+            f_cd = ex.submit(run_cd_model, cases)
+            f_g = ex.submit(core.coq_eval, PROP, ["Model.AnnotDb", "Model.AnnotDbGff"], "run_blocks",
+                            [gb_coq_case(c, gb_fixed) for c in gcases], "bool * list (option gline) * list Z", 80, "gb")
+            f_l = ex.submit(core.coq_eval, PROP, ["Model.AnnotDb", "Model.AnnotDbGff", "Model.AnnotDbGffText"], "run_parse_line",
+                            [zstr(x) for x in glines], "list Z", 400, "gl")
+            f_p = ex.submit(core.coq_eval, PROP, ["Model.AnnotDb", "Model.AnnotDbGff", "Model.AnnotDbGffText"], "run_family",
+                            [gp_coq_case(c, gb_fixed, gp_strict) for c in pcases], "bool * bool * list (option gline) * Z * list (list Z)", 80, "gp")
+            f_f = ex.submit(core.coq_eval, PROP, ["Model.AnnotDb", "Model.AnnotDbGff"], "run_files",
+                            [gf_coq_case(fcases[i], fimpl[i][0], gb_fixed, gf_carry) for i in fidx],
+                            "bool * bool * list (list (option gline)) * list Z", 80, "gf")
+            model, cdmodel, gmodel, lmodel, pmodel, fout = (f.result() for f in (f_model, f_cd, f_g, f_l, f_p, f_f))
         fmodel = [None] * len(fcases)
         for i, r in zip(fidx, fout):
             fmodel[i] = r
@@ -1377,6 +1391,7 @@ def run(tier: str, seed: int) -> int:
              "{None,1,2,3,default}, oracle = records of the concatenated text; gfflines: single lines (all orderings of ID/Parent/Name, "
              "odd keys, padding, comments, wrong column counts, bad integers) through gff_parser + merged_gff_records; gfffamily: "
              "gene/mRNA/exon/CDS hierarchies, get_feature_children / get_feature_parent for every name",
+        parent_child_lookup="exact names (notes/proposed_fixes/C17-5.diff)" if gp_strict else "LIKE '%name%' (a name inside another name matches too)",
         parent_child_queries=p_n, parent_child_queries_with_strict_oracle=p_spec, parent_child_queries_name_inside_other_name=p_loose,
         parent_child_answers_wider_than_parent_relation=len(LOOSE_EXAMPLES), parent_child_wider_example=LOOSE_EXAMPLES[:1],
         gff_lines_parsed=l_n, gff_lines_with_spec_oracle=l_spec, count_distinct_evaluations=cd_n, gff_multi_file_loads=f_loads, gff_multi_file_loads_with_common_names=f_nontriv,
